@@ -92,6 +92,11 @@ def judge_case(col: common.Collector, ll: codecrun.LoadedLayer, msg: Dict[str, A
         if off.endswith("/mask") and refcls in ("bits-outside-mask", "negative-unsigned",
                                                "out-of-range", "wrong-type"):
             mech = "masked-bits-dropped"  # one mechanism: value & BIT-MASK without complaint
+        if off.endswith("EMFIELD") and mech != "item-equals-endmarker" and \
+                ll.ref.item_reads_as_endmarker(msg["params"], values):
+            # the reference names the first reason it meets (e.g. a bool given for an integer,
+            # which odxtools accepts as 1); what was lost is the item that reads as the marker
+            mech = "item-equals-endmarker"
         bad("silent-misrepresentation", (mech, off),
             f"PDU {o.value.hex()} reads back as {dec[0]!r}", reads_back=dec[0], expected=expected)
         return
